@@ -8,11 +8,10 @@ pub fn def() -> PropDef {
     PropDef {
         id: "C05",
         builds: BOTH,
-        rule: "every text over {L,SP,HY,W,E2,CM,CSI,TAB}(+NL) up to length N x separator x splitter x break_words x algorithm x 9 indent pairs x widths 0..=byte length+indent+2 and the extremes (brackets both the display-width and the byte-length threshold); oracle 1 on every paragraph that fits; oracle 2 = differential of the real shortcut entry points against the real general-path entry points (--cfg fuzzing seam); non-trivial = a paragraph that fits by display width but for which the byte-length shortcut cannot be taken, or a differential evaluated with the shortcut eligible",
+        rule: "every text over {L,SP,HY,W,E2,CM,CSI,TAB,OSH (an OSC hyperlink with a hyphen in its URL)}(+NL) up to length N x separator x splitter x break_words x algorithm x 9 indent pairs x widths 0..=byte length+indent+2 and the extremes (brackets both the display-width and the byte-length threshold); oracle 1 on every paragraph that fits; oracle 2 = differential of the real shortcut entry points against the real general-path entry points (--cfg fuzzing seam); non-trivial = a paragraph that fits by display width but for which the byte-length shortcut cannot be taken, or a differential evaluated with the shortcut eligible",
         assumptions: BASE_ASSUMPTIONS,
         floor: |t| t.pick(100_000, 1_000_000),
         run,
-        panics_are_verdict: false,
     }
 }
 
@@ -81,7 +80,7 @@ fn differential(r: &mut Run, name: &str, alpha: &[Sym], n: usize) -> Result<(), 
 
 fn run(r: &mut Run) -> Result<(), MachineryError> {
     let t = r.tier;
-    let a1 = [L, SP, HY, W, E2, CM, CSI, TAB];
+    let a1 = [L, SP, HY, W, E2, CM, CSI, TAB, OSH];
     let a2 = [L, SP, W, E2, CSI, TAB, NL];
     text_space(r, "C05/fits(single paragraph)", &a1, t.pick(4, 5), &gamma(false), M_C05, WidthMode::Bytes, 0)?;
     text_space(r, "C05/fits(paragraphs)", &a2, t.pick(4, 5), &gamma(true), M_C05, WidthMode::Bytes, 3)?;
